@@ -774,6 +774,29 @@ func (c *EvalCtx) evalCall(n ECall, want *Sort) (Val, error) {
 			return Val{}, err
 		}
 		return Val{GT: types.NewPointer(t), S: []*Sort{sortRef}, L: []string{v.L[0]}}, nil
+	case "visited":
+		// visited(k): key k has already been yielded by the map iteration of the loop being specified
+		if x.curLoop == nil {
+			return Val{}, c.errf("visited() outside a loop invariant")
+		}
+		var rng *ssa.Range
+		for _, in := range x.curLoop.head.Instrs {
+			if nx, ok := in.(*ssa.Next); ok {
+				rng, _ = nx.Iter.(*ssa.Range)
+			}
+		}
+		if rng == nil {
+			return Val{}, c.errf("visited(): the loop is not a map iteration")
+		}
+		vn, vs, ok := x.visitedName(rng)
+		if !ok {
+			return Val{}, c.errf("visited(): unsupported key type")
+		}
+		k, err := arg(0, vs.Key)
+		if err != nil {
+			return Val{}, err
+		}
+		return boolVal("(select " + x.heapGet(c.st, vn, vs) + " " + k.One() + ")"), nil
 	case "ownfresh":
 		// allocated by the activation under verification (still private to it), or nil
 		v, err := arg(0, nil)
